@@ -79,6 +79,11 @@ func updateCallsIn(fn *ssa.Function) []ssa.Instruction {
 }
 
 func checkC03(c *Ctx) Meta {
+	// the transaction discipline as a premise (C12: memory is refreshed only after the commit, one
+	// transaction per operation, no swallowed error): "only the current passphrase works, now and after a restart" needs the running image to be the committed one: a passphrase change adopted in memory before (or without) its commit leaves the running wallet on a passphrase the store does not have
+	c.pushAlias("C12-", "C03-TX-")
+	checkC12(c)
+	c.popAlias()
 	c.Rule("C03-AUTH", "every secret-revealing or mutating wallet operation is dominated by a successful check of the caller's passphrase against the current credential: unlock, export, delete, private/public passphrase change, the passphrase of an imported file, and the same-passphrase gate of new and imported keystores", 10)
 	c.Rule("C03-CURRENT", "the credential compared against (salted hash, scrypt parameters) is written only by unlock, passphrase change, load and the eraser; the unlocked flags are raised only by updatePrivKeys and Unlock", 3)
 	c.Rule("C03-ERASE", "every private-hierarchy field that any function fills is zeroed (and dropped) by clearPrivKeys; Lock erases every keystore and clears the unlocked flag", 7)
